@@ -164,55 +164,188 @@ class SwallowRegistry:
         return out or frozenset()
 
     def swallows_class(self, ci: ClassInfo) -> frozenset:
-        """`__aexit__` / `__exit__` returning True exactly for Exception-class instances: structural check.
-        every `return False` / `raise` in the method lies under `<exc> is None` or under a `case _:` that follows a
-        `case Exception():` of the same match; no path falls off the end."""
+        """`__aexit__` / `__exit__` returns True for every Exception-class instance and for every group of them: decided by
+        enumerating the paths of the method with the exception parameter bound to an abstract kind (`exc`: one Exception
+        instance, `grp`: an ExceptionGroup holding only Exceptions); isinstance / match / `is None` tests on it are decided
+        from the kind, `rest = group.split(...)[1]` yields `none` or `grp`; every path must end in `return True`."""
         key = ci.qualname
         if key in self._memo:
             return self._memo[key]
         ex = ci.find_method("__aexit__") or ci.find_method("__exit__")
         res = frozenset()
-        if ex is not None:
-            ok = True
-            fn_node = ex.node
-
-            def visit(stmts, excluded_exception: bool, none_guard: bool):
-                nonlocal ok
-                for st in stmts:
-                    if isinstance(st, ast.Return):
-                        v = st.value
-                        is_true = isinstance(v, ast.Constant) and v.value is True
-                        if not is_true and not (excluded_exception or none_guard):
-                            ok = False
-                    elif isinstance(st, ast.Raise):
-                        if not (excluded_exception or none_guard):
-                            ok = False
-                    elif isinstance(st, ast.If):
-                        ng = none_guard or ("is None" in ast.unparse(st.test) and not isinstance(st.test, ast.BoolOp))
-                        visit(st.body, excluded_exception, ng)
-                        visit(st.orelse, excluded_exception, none_guard)
-                    elif isinstance(st, ast.Match):
-                        seen_exception = False
-                        for case in st.cases:
-                            p = case.pattern
-                            wildcard = isinstance(p, ast.MatchAs) and p.pattern is None
-                            visit(case.body, excluded_exception or (wildcard and seen_exception), none_guard)
-                            if isinstance(p, ast.MatchClass) and dotted(p.cls) == "Exception" and case.guard is None and not p.patterns and not p.kwd_patterns:
-                                seen_exception = True
-                        if not any(isinstance(c.pattern, ast.MatchAs) and c.pattern.pattern is None for c in st.cases):
-                            ok = False
-                    elif isinstance(st, ast.Try):
-                        visit(st.body, excluded_exception, none_guard)
-                        for h in st.handlers:
-                            visit(h.body, excluded_exception, none_guard)
-                        visit(st.finalbody, True, True)  # cleanup only
-                    elif isinstance(st, (ast.With, ast.AsyncWith, ast.For, ast.While)):
-                        visit(st.body, excluded_exception, none_guard)
-
-            visit(fn_node.body, False, False)
-            last = fn_node.body[-1]
-            falls = not isinstance(last, (ast.Return, ast.Raise, ast.Try, ast.Match))
-            if ok and not falls:
+        if ex is not None and not isinstance(ex.node, ast.Lambda):
+            args = ex.node.args
+            pos = [a.arg for a in args.posonlyargs + args.args]
+            if len(pos) >= 3 and all(ExitPaths(ex.node, pos[2], k).all_true() for k in ("exc", "grp")):
                 res = frozenset(EXC_TOKENS)
         self._memo[key] = res
         return res
+
+
+class ExitPaths:
+    """Path enumeration of an `__exit__`-like method over the abstract kind of its exception argument."""
+
+    GROUPS = {"BaseExceptionGroup", "ExceptionGroup"}
+    ROOTS = {"Exception", "BaseException"}
+
+    def __init__(self, fn_node: ast.AST, var: str, kind: str) -> None:
+        self.fn_node, self.var, self.kind = fn_node, var, kind
+        self.budget = 4000
+
+    def all_true(self) -> bool:
+        outs = list(self.block(self.fn_node.body, {self.var: self.kind}))
+        return bool(outs) and all(o == "true" for o, _ in outs)
+
+    # -- tests -------------------------------------------------------------------------------------------------------
+    def _isinst(self, kind: str, cls: ast.AST) -> bool | None:
+        names = [dotted(c) or "" for c in (cls.elts if isinstance(cls, ast.Tuple) else [cls])]
+        names = [n.split(".")[-1] for n in names]
+        if kind == "none":
+            return False
+        if kind not in ("exc", "grp"):
+            return None
+        if any(n in self.ROOTS for n in names):
+            return True
+        if any(n in self.GROUPS for n in names):
+            if kind == "grp":
+                return True
+            names = [n for n in names if n not in self.GROUPS]
+            if not names:
+                return False
+        if kind == "grp":
+            return False if all(n and n[0].isupper() for n in names) else None
+        return None  # some other class: the instance may or may not be one
+
+    def test(self, t: ast.AST, env: dict) -> bool | None:
+        if isinstance(t, ast.UnaryOp) and isinstance(t.op, ast.Not):
+            r = self.test(t.operand, env)
+            return None if r is None else not r
+        if isinstance(t, ast.BoolOp):
+            rs = [self.test(v, env) for v in t.values]
+            if isinstance(t.op, ast.And):
+                return False if any(r is False for r in rs) else (True if all(r is True for r in rs) else None)
+            return True if any(r is True for r in rs) else (False if all(r is False for r in rs) else None)
+        if isinstance(t, ast.Compare) and len(t.ops) == 1 and isinstance(t.left, ast.Name) and t.left.id in env \
+                and isinstance(t.comparators[0], ast.Constant) and t.comparators[0].value is None and isinstance(t.ops[0], (ast.Is, ast.IsNot, ast.Eq, ast.NotEq)):
+            k = env[t.left.id]
+            if k == "?":
+                return None
+            r = k == "none"
+            return r if isinstance(t.ops[0], (ast.Is, ast.Eq)) else not r
+        if isinstance(t, ast.Call) and isinstance(t.func, ast.Name) and t.func.id == "isinstance" and len(t.args) == 2 \
+                and isinstance(t.args[0], ast.Name) and t.args[0].id in env:
+            return self._isinst(env[t.args[0].id], t.args[1])
+        if isinstance(t, ast.Name) and t.id in env and env[t.id] != "?":
+            return env[t.id] != "none"
+        return None
+
+    def _pattern(self, p: ast.AST, kind: str) -> bool | None:
+        if isinstance(p, ast.MatchAs) and p.pattern is None:
+            return True
+        if isinstance(p, ast.MatchAs):
+            return self._pattern(p.pattern, kind)
+        if isinstance(p, ast.MatchSingleton):
+            return (kind == "none") if p.value is None and kind != "?" else (False if kind in ("exc", "grp", "none") else None)
+        if isinstance(p, ast.MatchClass):
+            r = self._isinst(kind, p.cls) if kind != "?" else None
+            if r is True and (p.patterns or p.kwd_patterns):
+                return None
+            return r
+        if isinstance(p, ast.MatchOr):
+            rs = [self._pattern(q, kind) for q in p.patterns]
+            return True if any(r is True for r in rs) else (False if all(r is False for r in rs) else None)
+        return None
+
+    # -- statements --------------------------------------------------------------------------------------------------
+    def block(self, stmts, env):
+        """Yield (outcome, env) for every path through `stmts`; outcome in next / true / other / raise / break / continue."""
+        self.budget -= 1
+        if self.budget < 0:
+            yield "other", env
+            return
+        if not stmts:
+            yield "next", env
+            return
+        st, rest = stmts[0], stmts[1:]
+        for out, e in self.stmt(st, env):
+            if out == "next":
+                yield from self.block(rest, e)
+            else:
+                yield out, e
+
+    def stmt(self, st, env):
+        if isinstance(st, ast.Return):
+            v = st.value
+            yield ("true" if isinstance(v, ast.Constant) and v.value is True else "other"), env
+        elif isinstance(st, ast.Raise):
+            yield "raise", env
+        elif isinstance(st, ast.If):
+            r = self.test(st.test, env)
+            if r is not False:
+                yield from self.block(st.body, env)
+            if r is not True:
+                yield from self.block(st.orelse, env)
+        elif isinstance(st, ast.Match):
+            subj = st.subject.id if isinstance(st.subject, ast.Name) and st.subject.id in env else None
+            kind = env[subj] if subj else "?"
+            fell = True
+            for case in st.cases:
+                r = self._pattern(case.pattern, kind)
+                if r is False:
+                    continue
+                if case.guard is not None:
+                    g = self.test(case.guard, env)
+                    if g is False:
+                        continue
+                    if g is None:
+                        r = None
+                yield from self.block(case.body, env)
+                if r is True:
+                    fell = False
+                    break
+            if fell:
+                yield "next", env
+        elif isinstance(st, ast.Try):
+            for out, e in self.block(st.body, env):
+                outs = [(out, e)]
+                if out == "raise" and st.handlers:
+                    outs = [oe for h in st.handlers for oe in self.block(h.body, e)] + [(out, e)]
+                elif out == "next" and st.orelse:
+                    outs = list(self.block(st.orelse, e))
+                for out2, e2 in outs:
+                    if not st.finalbody:
+                        yield out2, e2
+                        continue
+                    for out3, e3 in self.block(st.finalbody, e2):
+                        yield (out2, e3) if out3 == "next" else (out3, e3)
+        elif isinstance(st, (ast.With, ast.AsyncWith)):
+            yield from self.block(st.body, env)
+        elif isinstance(st, (ast.For, ast.AsyncFor, ast.While)):
+            yield "next", env
+            for out, e in self.block(st.body, env):
+                yield ("next" if out in ("break", "continue") else out), e
+        elif isinstance(st, ast.Break):
+            yield "break", env
+        elif isinstance(st, ast.Continue):
+            yield "continue", env
+        elif isinstance(st, (ast.Assign, ast.AnnAssign)):
+            targets = st.targets if isinstance(st, ast.Assign) else [st.target]
+            val = st.value
+            split_of = None
+            if isinstance(val, ast.Call) and isinstance(val.func, ast.Attribute) and val.func.attr == "split" and isinstance(val.func.value, ast.Name) \
+                    and env.get(val.func.value.id) == "grp":
+                split_of = val.func.value.id
+            envs = [dict(env)]
+            for t in targets:
+                if isinstance(t, ast.Tuple) and split_of and len(t.elts) == 2 and all(isinstance(x, ast.Name) for x in t.elts):
+                    # (matching sub-group | None, remaining sub-group | None); both are groups of Exceptions only
+                    envs = [{**e, t.elts[0].id: a, t.elts[1].id: b} for e in envs for a in ("none", "grp") for b in ("none", "grp") if (a, b) != ("none", "none")]
+                else:
+                    for n in ast.walk(t):
+                        if isinstance(n, ast.Name):
+                            k = env.get(val.id, "?") if isinstance(val, ast.Name) else ("none" if isinstance(val, ast.Constant) and val.value is None else "?")
+                            envs = [{**e, n.id: k} for e in envs]
+            for e in envs:
+                yield "next", e
+        else:
+            yield "next", env
